@@ -68,7 +68,7 @@ def deep_sig(prog, f):
         sig = leaf_sig(prog, g)
     except Exception:
         return None
-    if not sig or len(sig) > 48 or sum(len(x) for x in sig) > 24000:
+    if not sig or len(sig) > 64 or sum(len(x) for x in sig) > 40000:
         return None
     return sig
 
